@@ -14,6 +14,7 @@ import (
 	"strings"
 	"testing"
 	"testing/synctest"
+	"time"
 
 	quic "github.com/refraction-networking/uquic"
 	"github.com/refraction-networking/uquic/internal/protocol"
@@ -76,6 +77,7 @@ func (rn *runner) Close() {
 }
 
 func (rn *runner) Exec(op string) string {
+	defer vh.Watchdog(op, 60*time.Second)()
 	rn.reqs <- op
 	return <-rn.resps
 }
